@@ -238,7 +238,7 @@ PROPS["C08"] = dict(
     level_text=("For drawn valid messages (fully populated or sparse: 1-3 fields) of every corpus type (87 types, three runtimes), written by the harness's reference encoder, the medium damages the stored bytes: for messages of "
                 "up to 160 bytes every truncation offset and every single-bit flip is enumerated, otherwise the undamaged message plus a drawn combination of up to three faults (truncate, bit flip, inflate/deflate a "
                 "length prefix incl. 2^31-1/2^31/2^63, duplicate or drop a record) is applied, and (always in the exhaustive mode, else 1 in 2) every top-level length prefix is swept over "
-                "sixteen values from len+1 to 2^64-1. The regenerated Unmarshal must not panic, must allocate linearly in the input, and whenever "
+                "nineteen values from len+1 to 2^64-1. The regenerated Unmarshal must not panic, must allocate linearly in the input, and whenever "
                 "it and the reference runtime (dynamicpb on the schema's own descriptor) both accept, the decoded messages must have the same canonical digest. A reader rejecting what the "
                 "other accepts is not a violation (the property only constrains the accept/accept case). No scheduler or clock is involved: this is the single-actor corner of the technique."),
     level_note="Trusted: the reference encoder, dynamicpb + protodesc, protobuf-go's legacy wrapper for reading gogo structs, runtime/metrics.",
